@@ -30,9 +30,9 @@ def body(c):
     gcfg = c.path("Gen.cfg")
     with open(gcfg, "w") as f:
         if c.quick:
-            f.write(cfg_text(7, 1, wraps, ["fwd"], ["FALSE"], "INVARIANT ModelChecked\nINVARIANT Emit\n"))
+            f.write(cfg_text(7, 1, wraps, ["fwd", "rev"], ["FALSE"], "INVARIANT ModelChecked\nINVARIANT Emit\n"))
         else:
-            f.write(cfg_text(7, 7, wraps, ["fwd", "rev"], ["FALSE", "TRUE"], "INVARIANT Emit\n"))
+            f.write(cfg_text(7, 2, wraps, ["fwd", "rev"], ["FALSE", "TRUE"], "INVARIANT Emit\n"))
     if not c.quick:
         m = vlib.run_tlc("gql/IntrospectionModes.tla", "gql/MC_IntrospectionModes.cfg", env={"SCHEMA": SCHEMA}, workers=8, timeout=1800)
         if m.invariant_violated:
@@ -60,6 +60,10 @@ def body(c):
                             env={"SCHEMA": SCHEMA}, slices=(4 if c.quick else 8), timeout=3000, keep_lines=50, xmx="3g")
     c.add_tlc("V IntrospectionModesTrace", v)
     verdicts = {t[1]: (t[2], t[3]) for t in v.tagged("VERDICT")}
+    typename_cells = set()
+    for t in v.tagged("VERDICT"):
+        if t[4] == 1:
+            typename_cells.add(t[1])
     if len(verdicts) != len(obs):
         raise vlib.ToolError("V produced %d verdicts for %d cases" % (len(verdicts), len(obs)))
     cells = set()
@@ -82,6 +86,10 @@ def body(c):
                 positive["meta"] += 1
             if o["obs"]["log"]:
                 positive["resolver"] += 1
+    tn = set((o["s"], o["r"], o["op"], o["flavour"]) for o in obs if o["id"] in typename_cells)
+    if len(tn) != 9 * 2 * 2:
+        raise vlib.ToolError("vacuity: a root __typename was demanded in only %d of 36 (mode pair, query/mutation, flavour) cells" % len(tn))
+    c.cov["typename_demanded_cases"] = len(typename_cells)
     if len(cells) != 9 * 3 * 2:
         raise vlib.ToolError("vacuity: only %d of 54 (mode pair, operation, flavour) cells were exercised" % len(cells))
     if positive["meta"] == 0 or positive["resolver"] == 0:
@@ -93,7 +101,7 @@ def body(c):
                      "{__schema, __type, _service{sdl}, _entities, __typename, ordinary, nested} valid for the root (query-only kinds as single "
                      "probes on the other roots) x order {forward, reversed} x wrapper {none, inline fragment, typed inline fragment, named "
                      "fragment}%s: %d cases, all executed; non-trivial = some mode is not Enabled or the document selects __typename; "
-                     "distinct by the case tuple" % (" (quick: forward order only, wrapped documents hold one kind, no aliases)" if c.quick else " x {no alias, aliases}", len(cases)))
+                     "distinct by the case tuple" % (" (quick: wrapped documents hold one kind, no aliases)" if c.quick else " x {no alias, aliases} (wrapped documents hold at most 2 kinds)", len(cases)))
     for o in [x for x in obs if x["s"] == "Disabled" and "_service" in x["kinds"]][:1] + [x for x in obs if x["r"] == "IntrospectionOnly" and x["op"] == "subscription"][:1] + obs[:1]:
         c.sample({"s": o["s"], "r": o["r"], "flavour": o["flavour"], "via": o["via"], "text": o["text"], "resps": [r["data"] for r in o["obs"]["resps"]][:2],
                   "log": o["obs"]["log"], "verdict": verdicts[o["id"]][0]})
